@@ -193,6 +193,14 @@ impl ServerState {
                         sway_types::verif_hooks::resumed("worker.got", &|| {
                             format!("{:?}", ctx.version)
                         });
+                        // A request that has just been dequeued is the newest one: a cancellation
+                        // signal raised before it was sent was meant for an earlier compilation and
+                        // must not cancel this one.
+                        retrigger_compilation.store(false, Ordering::SeqCst);
+                        #[cfg(fuellabs_sway_verif)]
+                        sway_types::verif_hooks::point("worker.cleared_retrigger", &|| {
+                            String::new()
+                        });
                         let uri = &ctx.uri;
                         let path = uri.to_file_path().unwrap();
                         let mut engines_clone = ctx.engines.read().clone();
